@@ -292,6 +292,42 @@ func (c20) Eval(t *testing.T, c *Case, dec func(int) *Decider) *Outcome {
 		if !finished && p.ExitCode == 0 {
 			o.viol(prop, "read", "truncated-output", fmt.Sprintf("p%d exited 0 without finishing its program", pi))
 		}
+		if hookMissing("h.acquired") {
+			// Without load events the snapshot a transaction works on is unknown.
+			// What remains decidable from the output alone: two reads of a table in
+			// one transaction with no write access of its own to that table in
+			// between print the same.
+			o.Stats.probe("oracle-fallback:consecutive-reads")
+			lastRead := map[int]string{}
+			held := map[int]bool{}
+			for i, op := range meta.Ops[pi] {
+				if !reached[i] {
+					break
+				}
+				switch op.Kind {
+				case "commit", "rollback":
+					lastRead, held = map[int]string{}, map[int]bool{}
+				case "ins", "inc", "noop":
+					delete(lastRead, op.Table)
+					held[op.Table] = true
+				case "sel", "selfu":
+					got, ok := printed[i]
+					if !ok {
+						continue
+					}
+					if op.Kind == "selfu" && !held[op.Table] {
+						// the first access for update re-reads the file under the lock
+						held[op.Table] = true
+						delete(lastRead, op.Table)
+					}
+					if prev, had := lastRead[op.Table]; had && prev != got {
+						o.viol(prop, "stable-read", "unstable-read:consecutive", fmt.Sprintf("p%d op %d: two reads of %s inside one transaction without a write of its own in between differ: %q then %q", pi, i, tableName(op.Table), prev, got))
+					}
+					lastRead[op.Table] = got
+				}
+			}
+			continue
+		}
 		// walk the model
 		type tstate struct {
 			mode    string // "", "ro", "rw"
